@@ -126,12 +126,40 @@ def ref_cases(tier="quick"):
             # the register is sized by v, a gate uses the last qubit of the nominal size
             return (("register", "q", v),), (A.gate("X", A.item("q", size - 1)),)
 
-        positions = {"reversed-start": rev_start, "reversed-stop": rev_stop, "size-vs-index": under_size, "direct": direct, "single": single, "slice-start": lo, "slice-stop": hi, "slice-step": st,
+        def size_vs_single(v):
+            # ... the last qubit of the nominal size is named by a single-qubit alias with a literal index
+            return (("register", "q", v), ("map", "a", "q", size - 1)), (A.gate("X", "a"),)
+
+        def size_vs_slice(v):
+            # ... a literal slice over the nominal size
+            return (("register", "q", v), ("map", "a", "q", 0, size, None)), (A.gate("X", A.item("a", 0)),)
+
+        def start_vs_single(v):
+            # a slice starting at v; a single-qubit alias with a literal index into that slice
+            return (("register", "q", size + 1), ("map", "r", "q", v, size + 1, None), ("map", "a", "r", size - 1)), (A.gate("X", "a"),)
+
+        def wrong_up_start(v):
+            # start beyond the stop with a positive step: an empty alias, no index into it can be honoured
+            return (R, ("map", "a", "q", v, 1, None)), (A.gate("X", A.item("a", 0)),)
+
+        def wrong_up_stop(v):
+            return (R, ("map", "a", "q", size - 1, v, None)), (A.gate("X", A.item("a", 0)),)
+
+        def wrong_down_start(v):
+            return (R, ("map", "a", "q", v, size - 1, -1)), (A.gate("X", A.item("a", 0)),)
+
+        def wrong_down_stop(v):
+            return (R, ("map", "a", "q", 0, v, -1)), (A.gate("X", A.item("a", 0)),)
+
+        positions = {"wrong-way-up-start": wrong_up_start, "wrong-way-up-stop": wrong_up_stop,
+                     "wrong-way-down-start": wrong_down_start, "wrong-way-down-stop": wrong_down_stop,
+                     "size-vs-single": size_vs_single, "size-vs-slice": size_vs_slice, "start-vs-single": start_vs_single,
+                     "reversed-start": rev_start, "reversed-stop": rev_stop, "size-vs-index": under_size, "direct": direct, "single": single, "slice-start": lo, "slice-stop": hi, "slice-step": st,
                      "chain": chain, "strided": strided, "register-size": regsize}
         for pname, mk in positions.items():
             in_body = pname in ("direct", "chain", "strided")
             for v in nums:
-                lit_ok = isinstance(v, int) and not (pname in ("register-size", "size-vs-index") and v <= 0)
+                lit_ok = isinstance(v, int) and not (pname in ("register-size", "size-vs-index", "size-vs-single", "size-vs-slice") and v <= 0)
                 # literal
                 if lit_ok:
                     h, s = mk(v)
@@ -140,7 +168,7 @@ def ref_cases(tier="quick"):
                 h, s = mk("v")
                 yield ("ref:%s:let" % pname, wrap((("let", "v", v),) + h, s), (), "let", "full")
                 # override of a let whose declared value is harmless
-                safe = size if pname == "size-vs-index" else 1 if pname in ("slice-stop", "slice-step", "register-size") else 0
+                safe = size if pname in ("size-vs-index", "size-vs-single", "size-vs-slice") else 1 if pname in ("slice-stop", "slice-step", "register-size") else 0
                 yield ("ref:%s:override" % pname, wrap((("let", "v", safe),) + h, s), (("v", v),), "let", "full")
                 if in_body:
                     # macro argument: the reference is written inside a macro body over a parameter
@@ -406,6 +434,10 @@ class C14(Check):
         except Invalid as e:
             want = None
             verdict = e.reason
+            if verdict == "empty-alias" and _indexes(p, e.detail):
+                # declaring an empty alias is spoken of by no property, but an index INTO one lies outside 0..size-1
+                # of the alias it indexes, whatever its value
+                verdict = "out-of-range"
         integral_float = any(isinstance(x, float) and x == int(x) for x in _values(p, ovd))
         ctx.trace()
         stage, exc, art = run_pipeline(text, ovd, mode)
@@ -460,6 +492,15 @@ class C14(Check):
             extra = set(ng) - set(table)
             if extra:
                 ctx.fail("precedence", "unexpected native gates %r" % sorted(extra))
+
+
+def _indexes(p, name):
+    """does some gate argument of the program index the register / alias `name`"""
+    for st in p[2]:
+        for node in A.walk(st):
+            if node[0] == "gate" and any(isinstance(a, tuple) and a[0] == "item" and a[1] == name for a in node[2]):
+                return True
+    return False
 
 
 def _values(p, ovd):
